@@ -1,6 +1,8 @@
 """C14 - the fast Verilog parser agrees with the full parser on its documented subset."""
 import os
 import re
+import tempfile
+import zlib
 
 from rv.gen import circuits as G
 from rv.gen import netlists as N
@@ -142,7 +144,21 @@ def check(case, ctx):
         if ast.get("renamed"):
             ctx.count("nets_named_like_constants")
     tail = f"\n--- text ---\n{text[:1500]}"
-    okf, cf = ctx.call(cg.io.verilog_to_circuit, text, name, blackboxes=bbs, fast=True)
+    # the same definitions in another legal container; the fast parser also reached through from_file
+    h = zlib.crc32(text.encode())
+    rep = ["list", "list", "tuple", "set", "dictvalues"][h % 5]
+    bbs_arg = {"list": list, "tuple": tuple, "set": set, "dictvalues": lambda x: {id(b): b for b in x}.values()}[rep](bbs)
+    if bbs:
+        ctx.count(f"blackboxes_as:{rep}")
+    if (h >> 8) % 4 == 0:
+        with tempfile.TemporaryDirectory(prefix="rv_c14_") as td:
+            path = os.path.join(td, f"{name}.v")
+            with open(path, "w") as f:
+                f.write(text)
+            okf, cf = ctx.call(cg.io.from_file, path, name, blackboxes=bbs_arg, fast=True)
+        ctx.count("fast_via_from_file")
+    else:
+        okf, cf = ctx.call(cg.io.verilog_to_circuit, text, name, blackboxes=bbs_arg, fast=True)
     oks, cs = ctx.call(cg.io.verilog_to_circuit, text, name, blackboxes=bbs)
     ctx.count("cmp:fast_vs_full")
     if not oks:
@@ -213,5 +229,5 @@ def check(case, ctx):
 
 
 def gates(counters, table, tier):
-    need = ["no_primary_inputs", "input_is_output", "nets_named_like_constants", "src:ast", "src:writer", "src:lib", "with_constants", "unconnected_pins", "with_blackboxes", "graphs_identical", "functions_compared", "lib:c17", "lib:s27"]
+    need = ["no_primary_inputs", "input_is_output", "nets_named_like_constants", "src:ast", "src:writer", "src:lib", "with_constants", "unconnected_pins", "with_blackboxes", "graphs_identical", "functions_compared", "lib:c17", "lib:s27", "fast_via_from_file", "blackboxes_as:tuple", "blackboxes_as:set"]
     return [f"{k} seen {counters.get(k, 0)} times" for k in need if counters.get(k, 0) < 2]
